@@ -1,9 +1,23 @@
 #!/usr/bin/env python3
-"""Regenerates /verif/MANIFEST.json from tools/claims.json (kept in one place so that it stays valid)."""
-import json, subprocess
+"""Regenerates /verif/MANIFEST.json.
+
+Sources: tools/claims.json (hand-written entries), `vp describe` (rule / assumptions of every
+registered check, used for properties without a hand-written entry), tools/techniques.json
+(one-line technique per property), tools/not_applicable.json (reasons for properties not claimed).
+"""
+import json, subprocess, os
 
 ALL = [json.loads(l) for l in open('/verif/properties.jsonl')]
 CLAIMED = json.load(open('/verif/tools/claims.json'))
+TECH = json.load(open('/verif/tools/techniques.json'))
+NA = json.load(open('/verif/tools/not_applicable.json')) if os.path.exists('/verif/tools/not_applicable.json') else {}
+
+desc = {}
+try:
+    out = subprocess.run(['/verif/.build/debug/vp', 'describe'], capture_output=True, text=True).stdout
+    desc = {d['id']: d for d in json.loads(out)}
+except Exception as e:
+    print('describe failed', e)
 
 PENDING_REASON = "check not built yet in this session (implementation in progress, see DESIGN.md §10); not claimed until its check is silent on the unchanged tree"
 
@@ -12,11 +26,25 @@ def repo_commits(prefix):
     return [l.split()[0] for l in out if l.split(' ', 1)[1].startswith(prefix)]
 
 checks = []
+claimed_ids = []
 for p in ALL:
     i = p["id"]
-    if i not in CLAIMED:
+    if i in NA:
         continue
-    c = CLAIMED[i]
+    if i in CLAIMED:
+        c = CLAIMED[i]
+    elif i in desc and i in TECH:
+        d = desc[i]
+        c = {
+            "technique": TECH[i],
+            "category": d["level"],
+            "text": "Generated-input search with an explicit oracle; what is generated, what counts as non-trivial and distinct: " + d["rule"],
+            "note": "Assumed / trusted: " + " | ".join(d["assumptions"]) + " | trusted base: " + ", ".join(d["trusted_base"]),
+            "ref": f"§6 {i}",
+        }
+    else:
+        continue
+    claimed_ids.append(i)
     checks.append({
         "property_id": i,
         "quick_cmd": f"./check {i} quick",
@@ -40,11 +68,11 @@ manifest = {
         "add_only": True,
     },
     "engines": [
-        {"name": "vp", "path": "/verif/harness", "serves_properties": sorted(CLAIMED), "kind_free_text": "Rust binary: seeded proptest TestRunner shards + exhaustive enumerators + process-isolated workers + spec-derived reference implementations (refpdf, refcrypto, refcodec, reffont, reftab); writes evidence and replay files"},
+        {"name": "vp", "path": "/verif/harness", "serves_properties": claimed_ids, "kind_free_text": "Rust binary: seeded proptest TestRunner shards + exhaustive enumerators + process-isolated workers + spec-derived reference implementations (refpdf, refcrypto, refcodec, reffont, reftab, refpng); writes evidence and replay files"},
     ],
     "checks": checks,
     "notes": "Exit codes: 0 held (KNOWN-FINDING lines for listed findings), 1 VIOLATION, 2 could not decide (build failure / harness problem). Known findings: /verif/known_findings.jsonl. Committed replays under /verif/replays/<ID>/ run first in every invocation. Repairs of genuine defects are the 'fix:' commits in /repo: " + ", ".join(repo_commits("fix:")),
-    "not_applicable": [{"property_id": p["id"], "reason": PENDING_REASON} for p in ALL if p["id"] not in CLAIMED],
+    "not_applicable": [{"property_id": p["id"], "reason": NA.get(p["id"], PENDING_REASON)} for p in ALL if p["id"] not in claimed_ids],
 }
 json.dump(manifest, open('/verif/MANIFEST.json', 'w'), indent=1, ensure_ascii=False)
 print("claimed", len(checks), "not_applicable", len(manifest["not_applicable"]))
